@@ -8,6 +8,24 @@
 #include <stdlib.h>
 #include <string.h>
 
+#include <signal.h>
+#include <unistd.h>
+
+// When a sanitizer kills the process (or a fatal signal arrives) the buffered stdout still names the operation in flight: flush it,
+// so that the harness attributes the report to the right driver line.
+extern "C" void __sanitizer_set_death_callback(void (*)(void)) __attribute__((weak));
+static void verif_flush_on_death(void) { fflush(stdout); }
+static void verif_flush_on_signal(int sig) { fflush(stdout); signal(sig, SIG_DFL); raise(sig); }
+static void verif_install_death_flush(void) {
+    if (__sanitizer_set_death_callback) __sanitizer_set_death_callback(verif_flush_on_death);
+    // only where nobody else handles the signal (the guard-page drivers and the sanitizer runtimes install their own handlers)
+    int sigs[] = {SIGSEGV, SIGBUS, SIGABRT, SIGFPE, SIGILL};
+    for (unsigned i = 0; i < sizeof sigs / sizeof sigs[0]; i++) {
+        struct sigaction old;
+        if (sigaction(sigs[i], NULL, &old) == 0 && old.sa_handler == SIG_DFL && !(old.sa_flags & SA_SIGINFO)) signal(sigs[i], verif_flush_on_signal);
+    }
+}
+
 #define MAXTOK 96
 #define LINEBUF (1 << 20)
 
